@@ -3,7 +3,7 @@
    every operation as a list of integers (compared exactly with the
    implementation's state). Model file. *)
 From Coq Require Import QArith Qminmax List Bool Arith ZArith.
-From WSI Require Import Vqip Pow Enc Tank Arc QTank Distrib Kinds Boundary Net.
+From WSI Require Import Vqip Pow Enc Tank Arc QTank Distrib Kinds TimeArea Boundary Net.
 Import ListNotations.
 Open Scope Q_scope.
 
@@ -230,6 +230,44 @@ Fixpoint run_kind (maxiter : nat) (kd : kkind) (k : nknode) (ops : list kop) : l
       match kind_step maxiter kd k o with
       | None => [(-999)%Z]
       | Some (k', out) => out ++ enc_knode k' ++ run_kind maxiter kd k' r
+      end
+  end.
+
+(* ---------------- nodes on a queue tank: Sewer, QueueGroundwater (TimeArea.v) ---------------- *)
+Inductive qkind := QSewer | QGroundwater.
+Inductive qnop :=
+| YPushTA (v : vqip)               (* Sewer: tags Land / Demand; QueueGroundwater: any push *)
+| YPushPipe (v : vqip)             (* Sewer: default / Sewer tag *)
+| YPushCheck (ov : option vqip) | YPullCheck (ov : option Q) | YPullSet (q : Q)
+| YDischarge                       (* Sewer.make_discharge / QueueGroundwater.distribute *)
+| YEnd (T : Q)
+| YOverride (cap : Q) (pt : nat) (ta : list (nat * Q)).
+Definition nqnode := qnode (nb * nb).
+Definition enc_qnode (L : nat) (n : nqnode) : list Z :=
+  enc_qtank L (qn_t _ n) ++ enc_star (qn_outs _ n) ++ enc_star (qn_ins _ n).
+Definition qnode_step (maxiter : nat) (kd : qkind) (n : nqnode) (o : qnop) : option (nqnode * list Z) :=
+  match o with
+  | YPushTA v => let '(n', r) := qn_push_timearea _ n v in Some (n', ev r)
+  | YPushPipe v => let '(n', r) := sw_push_set_sewer _ n v in Some (n', ev r)
+  | YPushCheck ov =>
+      Some (n, ev (match kd with QSewer => sw_push_check _ n ov | QGroundwater => qg_push_check _ n ov end))
+  | YPullCheck ov => Some (n, ev (qg_pull_check _ n ov))
+  | YPullSet q => let '(n', r) := qg_pull_set _ n q in Some (n', ev r)
+  | YDischarge =>
+      match (match kd with QSewer => sw_make_discharge _ nbport maxiter n | QGroundwater => qg_distribute _ nbport maxiter n end) with
+      | None => None | Some n' => Some (n', []) end
+  | YEnd T =>
+      let n1 := qn_end _ n T in
+      Some (mkQN _ (qn_t _ n1) (end_star (qn_outs _ n1)) (end_star (qn_ins _ n1)) (qn_pt _ n1) (qn_ta _ n1), [])
+  | YOverride cap pt ta => Some (sw_override _ n cap pt ta, [])
+  end.
+Fixpoint run_qnode (L maxiter : nat) (kd : qkind) (n : nqnode) (ops : list qnop) : list Z :=
+  match ops with
+  | [] => []
+  | o :: r =>
+      match qnode_step maxiter kd n o with
+      | None => [(-999)%Z]
+      | Some (n', out) => out ++ enc_qnode L n' ++ run_qnode L maxiter kd n' r
       end
   end.
 
